@@ -240,6 +240,75 @@ theorem C18_empty_interface_counterexample :
     ¬ Transparent w fixedResolverAddr rs := by
   decide +kernel
 
+/-- **C18 what the proposed patches achieve** (about `Model.ProxyFixed`, the router with
+    work/proposed/c18-continue-after-interface-not-found.diff,
+    c18-getdesc-without-parameters.diff and c18-getinfo-configured-resolver.diff applied;
+    a hypothetical model, not tied by ./check): for *any* configured resolver address and
+    without any hypothesis on dots, resolution or reachability, the patched router is
+    transparent — unknown interfaces, unreachable addresses, methods without a dot and
+    parameterless GetInterfaceDescription are answered like the specification says and the
+    session goes on.  What remains: a static resolver, non-empty interface names,
+    well-typed GetInterfaceDescription parameters, no upgrade flag, and services that
+    answer properly on a connection they keep open. -/
+theorem C18_transparent_after_patches (w : World) (ra : String) (rs : List Request)
+    (hs : StaticResolver w) (hg : ∀ r ∈ rs, GoodFixed w ra r) :
+    (runFixed w ra {} (rs.map .req)).groups = idealRun w ra 0 [] rs ∧
+    (runFixed w ra {} (rs.map .req)).status = .eof := by
+  have := runFixed_good w hs ra rs {} 0 (Or.inl rfl) hg
+  exact ⟨this.2, this.1⟩
+
+/-- non-vacuity: the witnesses of four counterexamples above in one session, through the patched router -/
+example :
+    let w : World := { exWorld false with
+      svcAt := fun a => if a == "A" then some (exSvc "A") else if a == "R" then some exResolverSvc else none }
+    let rs := [rq "no.such.M", rq "nodot", rq "dead.x.M", rq "org.varlink.service.GetInterfaceDescription",
+               rq "org.varlink.service.GetInfo", rq "a.b.M"]
+    (runFixed w "R" {} (rs.map .req)).groups =
+      [[errInterfaceNotFound "no.such"], [errInterfaceNotFound "nodot"], [errInterfaceNotFound "dead.x"],
+       [errInvalidParameter "parameters"], [exReply "resolver-info"], [exReply "A"]] ∧
+    (runFixed w "R" {} (rs.map .req)).groups = idealRun w "R" 0 [] rs ∧
+    (runFixed w "R" {} (rs.map .req)).status = .eof := by
+  decide +kernel
+
+/-! ### byte level: the client's stream under any segmentation -/
+
+/-- **C18 the bridge's reading is chunking invariant**: `bridge` reads the client's
+    descriptor through a `BufReader`; for every read schedule of the same byte stream
+    it forwards the same requests and writes the same replies as `run` on the decoded
+    frames of the stream, and when a request hands over to the byte pump, what the
+    `BufReader` still holds plus what the descriptor has not delivered yet is exactly
+    the stream after that request — so every later byte is either forwarded by the
+    pump or is one of the `buffered` bytes of `upgradedPump`. -/
+theorem C18_bridge_chunking_invariance (w : World) (dec : Bytes → Frame) (r1 r2 : List Bytes)
+    (h1 : NoEmpty r1) (h2 : NoEmpty r2) (he : r1.flatten = r2.flatten) :
+    (bridge w dec r1).groups = (bridge w dec r2).groups ∧
+    (bridge w dec r1).sent = (bridge w dec r2).sent ∧
+    (bridge w dec r1).status = (bridge w dec r2).status ∧
+    (bridge w dec r1).groups = (run w {} (clientFrames dec r1.flatten)).groups ∧
+    (∀ a i, (bridge w dec r1).status = .upgraded a i →
+      (bridge w dec r1).buffered ++ (bridge w dec r1).rest.flatten =
+      (bridge w dec r2).buffered ++ (bridge w dec r2).rest.flatten) := by
+  have s1 := bridge_spec w dec r1 h1
+  have s2 := bridge_spec w dec r2 h2
+  simp only [he] at s1
+  simp only at s2
+  obtain ⟨g1, n1, t1, u1⟩ := s1
+  obtain ⟨g2, n2, t2, u2⟩ := s2
+  refine ⟨by rw [g1, g2], by rw [n1, n2], by rw [t1, t2], by rw [g1, he], ?_⟩
+  intro a i hu
+  rw [t1] at hu
+  rw [u1 a i hu, u2 a i hu]
+
+/-- a quirk the byte-level model mirrors (proxy.rs 47 `buf.pop()` is unconditional): a last
+    message that lacks its NUL but carries one extra byte is executed when the client closes,
+    whereas a service reading the same bytes directly treats it as incomplete -/
+example :
+    let w := exWorld false
+    let dec : Bytes → Frame := fun m => if m = [1, 2] then .req (rq "a.b.M") else .bad
+    (bridge w dec [[1, 2, 9]]).groups = [[exReply "A"]] ∧ (bridge w dec [[1, 2, 9]]).status = .eof ∧
+    (handle w.consts (exSvc "A") dec [[1, 2, 9]]).groups = [] := by
+  decide +kernel
+
 /-! ### upgraded sessions and direct mode: byte pumps -/
 
 /-- **C18 upgraded hand-over (partial)**: when the client sends nothing before it
